@@ -560,6 +560,8 @@ def vector_hooks():
                                                (Ptr(o.items, 0) if name == "data" and isinstance(o, Vec) else (_ for _ in ()).throw(Broken("%s on an object that is not a string" % name)))))(name)
     out["ctor:std::basic_string<*"] = lambda ev, o, a: StdStr.construct(a)
     out["ctor:std::allocator<*"] = lambda ev, o, a: Sym.of("allocator")
+    out["std::setfill<char>"] = lambda ev, o, a: ("setfill", chr(int(a[0]) & 0xff))
+    out["std::setw"] = lambda ev, o, a: ("setw", int(a[0]))
     out["ctor:std::basic_stringstream<*"] = lambda ev, o, a: OStream()
     out["ctor:std::basic_ostringstream<*"] = lambda ev, o, a: OStream()
     out["method:str"] = lambda ev, o, a: StdStr(o.text().encode("latin-1")) if isinstance(o, OStream) else (_ for _ in ()).throw(Broken("str() on an unmodelled object"))
@@ -627,6 +629,7 @@ class OStream:
     def __init__(self):
         self.out = []
         self.base, self.showbase, self.boolalpha = 10, False, False
+        self.fill, self.width = " ", 0
 
     @property
     def addr(self):
@@ -638,7 +641,20 @@ class OStream:
     def text(self):
         return "".join(self.out)
 
+    def _emit(self, text):
+        # std::setw applies to the next formatted insertion only; padding on the left (the repository never sets std::left)
+        if self.width and len(text) < self.width:
+            text = self.fill * (self.width - len(text)) + text
+        self.width = 0
+        self.out.append(text)
+
     def put(self, v, t=None):
+        if isinstance(v, tuple) and v and v[0] == "setfill":
+            self.fill = v[1]
+            return self
+        if isinstance(v, tuple) and v and v[0] == "setw":
+            self.width = v[1]
+            return self
         if isinstance(v, Sym):
             q = v.q
             if q in ("std::hex", "std::oct", "std::dec"):
@@ -655,28 +671,28 @@ class OStream:
                 raise Broken("stream manipulator %s is not modelled" % q)
             return self
         if isinstance(v, bool):
-            self.out.append(("true" if v else "false") if self.boolalpha else ("1" if v else "0"))
+            self._emit(("true" if v else "false") if self.boolalpha else ("1" if v else "0"))
             return self
         if isinstance(v, StdStr):
-            self.out.append(v.b.decode("latin-1"))
+            self._emit(v.b.decode("latin-1"))
             return self
         if isinstance(v, Ptr):
-            self.out.append(v.cstr())
+            self._emit(v.cstr())
             return self
         if isinstance(v, int):
             ti = tinfo(t)
             if ti is not None and ti[0] == 8:
-                self.out.append(chr(v & 0xff))       # a char
+                self._emit(chr(v & 0xff))       # a char
                 return self
             if self.base == 10:
-                self.out.append(str(v))
+                self._emit(str(v))
             else:
                 # hex/oct output converts to the unsigned representation of the operand's width
                 bits = ti[0] if ti else 64
                 u = v & ((1 << bits) - 1)
                 digits = ("%x" if self.base == 16 else "%o") % u
                 prefix = ("0x" if self.base == 16 else "0") if (self.showbase and u != 0) else ""
-                self.out.append(prefix + digits)
+                self._emit(prefix + digits)
             return self
         raise Broken("insertion of %r into a stream is not modelled" % (v,))
 
@@ -780,6 +796,10 @@ class CxxEvaluator(Evaluator):
                     if isinstance(v, list) and len(v) == 1:
                         v = v[0]
                     setattr(o, fl["n"], conv(v, fl.get("t")))
+                elif fl.get("n") and (fl.get("t") or "").startswith(("std::unique_ptr<", "std::shared_ptr<")):
+                    setattr(o, fl["n"], None)         # a default-constructed smart pointer is null (scalars stay indeterminate)
+                elif fl.get("n") and (fl.get("t") or "").startswith("std::vector<"):
+                    setattr(o, fl["n"], Vec([], "vector"))
         defaults(cls)
         return o
 
@@ -1123,6 +1143,11 @@ class CxxEvaluator(Evaluator):
                     t = ua.get("t") if isinstance(ua, dict) else None
                     if isinstance(ua, dict) and ua.get("k") == "chr":
                         t = "char"
+                    # the overload the compiler selected says how the operand is formatted
+                    fid = e.get("fid") or ""
+                    ptail = fid[fid.rfind(",") + 1:fid.rfind(")")].strip() if fid.endswith(")") and "," in fid else (fid[fid.rfind("(") + 1:fid.rfind(")")].strip() if fid.endswith(")") else "")
+                    if ptail in ("char", "signed char", "unsigned char"):
+                        t = ptail
                     return strm.put(val, t)
         if k == "call" and e.get("f", "").startswith("std::swap<") and len(e.get("a", [])) == 2:
             a = self.eval(e["a"][0], env, this)
